@@ -3,10 +3,21 @@
 # See the NOTICE for more information.
 
 import io
+import re
 import sys
 
 from gunicorn.http.errors import (NoMoreData, ChunkMissingTerminator,
-                                  InvalidChunkSize)
+                                  InvalidChunkSize, InvalidChunkExtension)
+
+# RFC9112 7.1.1, behind the first ";":
+#  chunk-ext = *( BWS ";" BWS chunk-ext-name [ BWS "=" BWS chunk-ext-val ] )
+#  chunk-ext-name = token, chunk-ext-val = token / quoted-string
+# no bare CR, bare LF, NUL or other control can be part of it: an intermediary
+# that ends the line there would read a different chunk
+_TOKEN = rb"[!#$%&'*+\-.^_`|~0-9a-zA-Z]+"
+_QUOTED = rb'"(?:[\t \x21\x23-\x5b\x5d-\x7e\x80-\xff]|\\[\t \x21-\x7e\x80-\xff])*"'
+_EXT = rb"[ \t]*" + _TOKEN + rb"(?:[ \t]*=[ \t]*(?:" + _TOKEN + rb"|" + _QUOTED + rb"))?"
+CHUNK_EXT_RE = re.compile(_EXT + rb"(?:[ \t]*;" + _EXT + rb")*")
 
 
 class ChunkedReader:
@@ -102,6 +113,8 @@ class ChunkedReader:
             raise InvalidChunkSize(chunk_size)
         if len(chunk_size) == 0:
             raise InvalidChunkSize(chunk_size)
+        if chunk_ext and not CHUNK_EXT_RE.fullmatch(chunk_ext[0]):
+            raise InvalidChunkExtension(chunk_ext[0])
         chunk_size = int(chunk_size, 16)
 
         if chunk_size == 0:
